@@ -6,7 +6,7 @@ reg('C01', engine='h_planners',
          'optional heading slab, start/goal sets (every third world: invalid / out-of-bounds / multiple starts and goals, '
          'GoalStates, non-sampleable goal region), threshold, range, resolution, segment factor; non-trivial = a solution '
          'path with >= 3 states in a world with >= 1 obstacle was examined by the oracle; distinct = (world seed, planner, case seed)',
-    floors={'quick': {'solutions_checked': 120, 'dense_samples': 100000, 'strict_rechecks': 2000},
+    floors={'quick': {'solutions_checked': 200, 'dense_samples': 200000, 'strict_rechecks': 1200},
             'thorough': {'solutions_checked': 1500}},
     case_timeout={'quick': 900, 'thorough': 1800},
     level_text='every solution reported by every planner variant on the generated worlds is re-validated independently '
